@@ -376,6 +376,19 @@ def sync_refusal_exact(cx, iid):
                 inst.violation(b.path, "credit refusal", "emit_sync_frame refuses to send on a path where the credit is not negative", at=b.span_at(loc), detail={"facts_on_offending_path": sorted(bad)[:8] if bad else []})
         if not errs:
             inst.note("emit_sync_frame has no refusing exit")
+        # the same holds for the three emitter entry points (an ack-only reply to a keepalive is a `push_dud`): an
+        # Err return is either for negative credit (of the connection, or after the frame in progress is paid for),
+        # or for a reason that is not credit at all (frame window closed)
+        OKR = [[r"lt\(arg1\.flush_alloc,0\)"], [r"lt\(sub\(arg1\.flush_alloc,cast<isize>\(.*\)\),0\)"], [r"!FrameQueue::can_push\(arg1\.frame_queue\)"]]
+        for fn in ("AckFrameEmitter::push_dud", "AckFrameEmitter::push", "DataFrameEmitter::push"):
+            eb = R.body(fn)
+            efa = cx.fa(eb)
+            for loc, kind, node in eb.defs.get(0, []):
+                if kind == "assign" and show(eb.rvalue_expr(node["rv"])).startswith("Err{"):
+                    inst.site(eb, loc, "%s: return Err" % fn)
+                    g, bad = dnf_holds(efa.at(loc), OKR)
+                    if not g:
+                        inst.violation(eb.path, "credit refusal", "%s refuses on a path where the credit is not negative (credit 0 must still send: before the first RTT sample the credit is capped at 0)" % fn, at=eb.span_at(loc), detail={"facts_on_offending_path": sorted(bad)[:8] if bad else []})
 
 
 def half_connection_clock(cx, iid):
@@ -674,3 +687,77 @@ def resend_ref_in_own_frame(cx, iid):
                     inst.violation(b.path, "datagram added after its resend reference", "a resend reference is recorded before the datagram is (re-)added: it ends up in an earlier frame's list", at=b.span_at(pl))
                     break
                 st.extend(y for y, _ in b.succ[x])
+
+
+def loss_rate_shape(cx, iid):
+    """T7/T9 (RFC 5348 5.4): the loss event rate is W_tot / max(I_tot0, I_tot1) with the weights 1,1,1,1,.8,.6,.4,.2;
+    I_tot0 sums intervals 0..n-2 with weight w_i, I_tot1 sums intervals 1..n-1 with weight w_{i-1}.  With `min` in
+    place of `max` the open (loss-free) interval can never lower the rate again: after a lossy period the allowed
+    rate stays pinned near the minimum for as long as no further loss occurs."""
+    R = cx.R
+    import struct
+    with cx.instance(iid, "T7 SHAPE + T9", "compute_loss_rate = W_tot / max(I_tot0, I_tot1) over the RFC 5348 weights; eight weights 1,1,1,1,0.8,0.6,0.4,0.2", floor=4) as inst:
+        c = R.const("loss_rate::LossIntervalQueue::WEIGHTS")
+        raw = bytes.fromhex(c.get("bytes_hex", ""))
+        ws = [struct.unpack("<d", raw[i:i + 8])[0] for i in range(0, len(raw), 8)]
+        inst.site("<const>", None, "WEIGHTS = %s" % ws)
+        if [round(w, 6) for w in ws] != [1, 1, 1, 1, 0.8, 0.6, 0.4, 0.2]:
+            inst.violation("half_connection::loss_rate::LossIntervalQueue::WEIGHTS", "weights", "loss interval weights are %s, RFC 5348 5.4 has 1,1,1,1,0.8,0.6,0.4,0.2" % ws)
+        b = R.body("LossIntervalQueue::compute_loss_rate")
+        rets = [(loc, show(b.rvalue_expr(node["rv"]))) for loc, kind, node in b.defs.get(0, []) if kind == "assign"]
+        multi = [v for l, v in rets if "f64::max" in v or "f64::min" in v or re.search(r"div\(var\d+,", v)]
+        inst.site(b, None, "loss rate (n > 1) = %s" % multi)
+        m = re.fullmatch(r"div\((var\d+),f64::max\((var\d+),(var\d+)\)\)", multi[0]) if len(multi) == 1 else None
+        if not m:
+            inst.violation(b.path, "loss rate", "the loss event rate for more than one interval is %s, expected W_tot / max(I_tot0, I_tot1)" % multi)
+            return
+        wv, av, bv = m.groups()
+        W = r"half_connection::loss_rate::LossIntervalQueue::WEIGHTS"
+        acc = {}
+        for v in (wv, av, bv):
+            n = int(v[3:])
+            forms = sorted({show(b.rvalue_expr(node["rv"])) for loc, kind, node in b.defs.get(n, []) if kind == "assign"} - {"0.0"})
+            acc[v] = forms
+            inst.site(b, None, "%s accumulates %s" % (v, [f[:110] for f in forms]))
+        IDX = r"Range::next\(var\d+\)@Some\.0"
+        ok_w = len(acc[wv]) == 1 and re.fullmatch(r"add\((%s\[%s\],%s|%s,%s\[%s\])\)" % (W, IDX, wv, wv, W, IDX), acc[wv][0])
+        t0 = r"mul\((cast<f64>\(arg1\.entries\[(%s)\]\.length\),%s\[(%s)\]|%s\[(%s)\],cast<f64>\(arg1\.entries\[(%s)\]\.length\))\)" % (IDX, W, IDX, W, IDX, IDX)
+        def classify(forms, v):
+            if len(forms) != 1:
+                return None
+            f = forms[0]
+            m0 = re.fullmatch(r"add\((.*),%s\)|add\(%s,(.*)\)" % (v, v), f)
+            if not m0:
+                return None
+            term = m0.group(1) or m0.group(2)
+            if re.fullmatch(r"mul\(cast<f64>\(arg1\.entries\[(%s)\]\.length\),%s\[\1\]\)" % (IDX, W), term) or re.fullmatch(r"mul\(%s\[(%s)\],cast<f64>\(arg1\.entries\[\1\]\.length\)\)" % (W, IDX), term):
+                return "same"
+            if re.fullmatch(r"mul\(cast<f64>\(arg1\.entries\[(%s)\]\.length\),%s\[sub\(\1,1\)\]\)" % (IDX, W), term) or re.fullmatch(r"mul\(%s\[sub\((%s),1\)\],cast<f64>\(arg1\.entries\[\1\]\.length\)\)" % (W, IDX), term):
+                return "shifted"
+            return None
+        kinds = sorted([str(classify(acc[av], av)), str(classify(acc[bv], bv))])
+        if not ok_w or kinds != ["same", "shifted"]:
+            inst.violation(b.path, "interval sums", "the weighted interval sums are not I_tot0 = sum l_i w_i and I_tot1 = sum l_i w_(i-1) with W_tot = sum w_i (%s, %s)" % (kinds, acc[wv]))
+        rngs = sorted(show(b.call_expr(t)) for l, t in b.calls("I::into_iter") if "Range{" in show(b.call_expr(t)))
+        inst.site(b, None, "ranges: %s" % rngs)
+        if rngs != ["I::into_iter(Range{0,sub(VecDeque::len(arg1.entries),1)})", "I::into_iter(Range{1,VecDeque::len(arg1.entries)})"]:
+            inst.violation(b.path, "interval ranges", "the two sums run over %s, expected 0..n-1 and 1..n" % rngs)
+
+
+def active_timeout_sweep(cx, iid):
+    """T2: Server::handle_events looks at every active client's deadline on every call: the sweep over active_clients
+    is reached on all paths (a `return` out of the timer-draining loop would skip it whenever some other client still
+    has a timer queued, so silent peers would never time out and never free their slots)."""
+    R = cx.R
+    with cx.instance(iid, "T2 PAIR (presence)", "Server::handle_events reaches the active-timeout sweep on every path; Client::handle_events tests the Active deadline", floor=2) as inst:
+        b = R.body("server::Server::handle_events")
+        sweeps = [l for l, t in b.calls("re:(\\[T\\]::iter|Vec::iter|I::into_iter)$") if "arg1.active_clients" in show(b.call_expr(t))]
+        for l in sweeps:
+            inst.site(b, l, "sweep over active_clients")
+        if not sweeps or b.reach_exit_avoiding(Loc(0, -1), sweeps) is not None:
+            inst.violation(b.path, "active-timeout sweep", "handle_events can return without looking at the active clients' deadlines")
+        pushes = event_pushes(b, r"Error\{.*Timeout")
+        for l, lab in pushes:
+            inst.site(b, l, lab)
+        if not pushes:
+            inst.violation(b.path, "Error(Timeout)", "the server no longer reports active timeouts (anchor)")
